@@ -60,7 +60,16 @@ RULE = ("Documents are rendered from abstract trees; the oracle is the tree that
         "line histories of a 20-kind well-formed-line alphabet on the real Parser (canonical abstraction of C05) for "
         "parse_feature and parse_steps, plus all sequences <= 3 (quick) / <= 4 (thorough) lines: whenever the real "
         "parser accepts a history that the reference grammar also places, the model must equal the reference "
-        "attachment. A document is non-trivial (counted distinct by its text) when it has at least one step or table; "
+        "attachment. (8) Parser-reuse histories: ONE Parser object (a new one, or feature.parser of a parsed feature "
+        "as Context.execute_steps uses it) makes 2-3 calls of parse / parse_steps / parse_scenario / parse_rule; the "
+        "earlier calls abort at the C05 fault points (malformed row in a step table of width 1 / 2 and in an Examples "
+        "table, BAD-INDENT inside a doc-string, doc-string left open, doc-string / table before any step, free text "
+        "after tags / after steps, second Feature, Examples inside a description, bad tag, And/But first, only tags, "
+        "table open at the end, a '# language: de' text) or complete; the last call is a well-formed rendered text "
+        "(table of the same width, another width, none, doc-string, both, tags, outline, rule, de header). Every call "
+        "must give the model (canonical form incl. lines) or the exception class + line that a FRESH Parser carrying "
+        "the same language gives (for a whole feature text also: a fresh Parser without language). A document is "
+        "non-trivial (counted distinct by its text) when it has at least one step or table; "
         "an alias case is distinct by (language, keyword, alias); a history by (abstract state, line kind).")
 ASSUMPTIONS = [
     "names / descriptions / cells / doc-string lines come from a finite alphabet (checked on every run not to be "
@@ -78,6 +87,11 @@ ASSUMPTIONS = [
     "one (a step has one .text and one .table); no Gherkin grammar allows it, so it is outside 'well-formed'",
     "the keyword table is etc/gherkin/gherkin-languages.json of the repository under test (the upstream data that "
     "behave/i18n.py is generated from), so that a keyword missing from i18n.py is noticed",
+    "parser reuse: which language a re-used Parser object starts a further whole-feature parse() in - the one it was "
+    "built with or the one a '# language:' header of an earlier text left behind - is outside the statement; both are "
+    "accepted (model or error class + line of a fresh Parser() and of a fresh Parser(language=<carried language>)); "
+    "steps / scenario / rule fragments are compared with a fresh Parser carrying the same language (that is how "
+    "execute_steps() gets the feature's language); everything else a parser keeps between parses is compared strictly",
     "BEHAVE_STRIP_STEPS_WITH_TRAILING_COLON is unset (./check scrubs BEHAVE_*); step names do not end in ':'",
 ]
 
@@ -1065,6 +1079,202 @@ def run_e2(ctx, entry):
     return len(seen), depth - 1, compared
 
 
+# ================================================================ (8) parser-reuse histories
+# One Parser object parses several texts one after the other (Context.execute_steps() always goes through
+# feature.parser.parse_steps()).  Earlier parses are aborted at the C05 fault points (or complete), the parses are
+# compared one by one with the same call on a FRESH Parser: same model in canonical form incl. line numbers, or the
+# same exception class and line.  A well-formed text must never be rejected, whatever the parser did before.
+_AB = (
+    # (method, text, label): parses that abort (or end) in the middle of something
+    ("parse", u"Feature: F\n  Scenario: S\n    Given g\n      | a | b |\n      | 1 | 2 |\n      | 3 |\n    Then t\n", "row-width-2"),
+    ("parse", u"Feature: F\n  Scenario: S\n    Given g\n      | a |\n      | 1 | 2 |\n", "row-width-1"),
+    ("parse", u"Feature: F\n  Scenario Outline: O\n    Given <x>\n    @e1\n    Examples: E\n      | x | y |\n      | 1 | 2 |\n      | 3 |\n", "examples-row"),
+    ("parse", u"Feature: F\n  Scenario: S\n    Given g\n      DQ\n      buffered line\n   less\n      DQ\n", "doc-bad-indent"),
+    ("parse", u"Feature: F\n  Scenario: S\n    When w\n        SQ\n        left open\n", "doc-unterminated"),
+    ("parse", u"Feature: F\n  @t1 @t2\n  free text\n", "text-after-tags"),
+    ("parse", u"@f1\nFeature: F\n  Scenario: S\n    Then t\n  Feature: again\n", "second-feature"),
+    ("parse", u"Feature: F\n  Scenario: S\n    a description line\n    Examples: E\n", "examples-in-description"),
+    ("parse", u"Feature: F\n  Background: B\n    Given g\n  @ok @bad tag\n", "bad-tag"),
+    ("parse", u"Feature: F\n  Scenario: S\n    And a\n", "and-first"),
+    ("parse", u"Feature: F\n  Background: B\n    When w\n  Rule: R\n    Scenario: S\n      Then t\n      free text\n", "text-after-steps-in-rule"),
+    ("parse", u"# language: de\nFunktionalit\xe4t: F\n  Szenario: S\n    Wenn w\n      | a | b |\n      | 1 |\n", "de:row-width-2"),
+    ("parse", u"@pending @tags\n", "only-tags"),
+    ("parse_steps", u"Given g\n  | a | b |\n  | 1 | 2 |\n  | 3 |\n", "row-width-2"),
+    ("parse_steps", u"Given g\n  | a |\n  | 1 | 2 |\n", "row-width-1"),
+    ("parse_steps", u"Given g\n  DQ\n  buffered line\n less\n", "doc-bad-indent"),
+    ("parse_steps", u"When w\n    SQ\n    left open\n", "doc-unterminated"),
+    ("parse_steps", u"DQ\n", "doc-before-step"),
+    ("parse_steps", u"| a | b |\n", "table-before-step"),
+    ("parse_steps", u"Then t\nfree text\n", "text-after-steps"),
+    ("parse_steps", u"But b\n", "but-first"),
+    ("parse_steps", u"Given g\n  | a | b |\n", "table-open-at-end"),
+    ("parse_scenario", u"@t1\nScenario: S\n  Given g\n    | a | b |\n    | 1 |\n", "row-width-2"),
+    ("parse_scenario", u"@t1 @t2\n", "only-tags"),
+    ("parse_rule", u"Rule: R\n  Scenario: S\n    Given g\n      | a | b |\n      | 1 |\n", "row-width-2"),
+)
+_AB = tuple((m, t.replace(u"DQ", u'"' * 3).replace(u"SQ", u"'" * 3), l) for m, t, l in _AB)
+_METHOD_ENTRY = {"parse": "feature", "parse_steps": "steps", "parse_scenario": "scenario", "parse_rule": "rule"}
+_WF = []
+
+
+def _wellformed_ops():
+    """the well-formed texts: rendered abstract documents (with the model they must give)"""
+    if _WF:
+        return _WF
+    S = gr.STEP_NAMES
+    t2 = ("table", [u"h1", u"h2"], [[u"a", u""], [u"x\\|y", u"\xfc"]])
+    t1 = ("table", [u"h1"], [[u"c1"], [u"c2"]])
+    t3 = ("table", [u"h 1", u"h2", u"h3"], [])
+    dq = ("text", u'"' * 3, [u"first", u"  indented more", u"", u"last"])
+    sq = ("text", u"'" * 3, [u"plain line"], 1)
+    both = ("both", "table", dq, t2)
+
+    def feat(steps, **kw):
+        scen = {"k": "scenario", "tags": kw.get("stags", []), "name": u"n1", "desc": kw.get("desc", []), "steps": steps}
+        return {"lang": "en", "tags": kw.get("ftags", []), "name": u"F", "desc": [], "bg": kw.get("bg"), "items": [scen]}
+
+    st = [("given", S[0], None), ("when", S[1], None), ("then", S[2], None)]
+    feats = [
+        ("tab2", feat([("given", S[0], t2), ("then", S[1], None)])),
+        ("tab1", feat([("given", S[0], None), ("when", S[1], t1)])),
+        ("tab3-first-step", feat([("given", S[0], t3)])),
+        ("no-table", feat(st, ftags=[u"f1", u"f2"], stags=[u"s1"], desc=[gr.DESCS[1][0]])),
+        ("doc", feat([("given", S[0], dq), ("and", S[1], sq)])),
+        ("doc+table", feat([("when", S[0], both), ("then", S[1], None)])),
+        ("star-first+bg", feat([("star", S[0], None), ("and", S[1], None)],
+                               bg={"name": u"", "desc": [], "steps": [("when", S[2], None)]})),
+        ("rich", gr.decorate(RICH, seed=1)),
+        ("outline-rule", lang_doc("en", {}, 0, header=False)),
+        ("de", lang_doc("de", {}, 0)),
+        ("de-tables", lang_doc("de", {}, 1)),
+    ]
+    for label, doc in feats:
+        _WF.append(("parse", gr.render(doc), label))
+    for label, steps in (("tab2", [("given", S[0], t2)]), ("tab1", [("when", S[0], t1), ("and", S[1], None)]),
+                         ("no-table", st), ("star-first", [("star", S[0], None), ("but", S[1], None)]),
+                         ("doc", [("then", S[0], sq)]), ("doc+table", [("given", S[0], both)])):
+        _WF.append(("parse_steps", gr.render_steps(steps), label))
+    _WF.append(("parse_scenario", gr.render_scenario({"k": "scenario", "tags": [u"t1", u"t2"], "name": u"n1", "desc": [],
+                                                       "steps": [("given", S[0], t2), ("and", S[1], None)]}), "tags+tab2"))
+    _WF.append(("parse_rule", gr.render_rule({"k": "rule", "tags": [u"r1"], "name": u"R", "desc": [gr.DESCS[1][0]],
+                                              "bg": {"name": u"", "desc": [], "steps": [("given", S[0], t1)]},
+                                              "items": [{"k": "scenario", "tags": [], "name": u"n1", "desc": [],
+                                                         "steps": [("and", S[1], None)]}]}), "bg+tab1"))
+    return _WF
+
+
+def _reuse_ops():
+    return [(m, t, "abort:" + l, None) for m, t, l in _AB] + [(m, r["text"], "ok:" + l, r) for m, r, l in _wellformed_ops()]
+
+
+def _reuse_call(parser, method, text):
+    parser.variant = _METHOD_ENTRY[method]      # as Context.execute_steps() does before parser.parse_steps()
+    try:
+        res = getattr(parser, method)(text)
+    except bp.ParserError as e:
+        return ("PE", e.line, ps.exc_site(e))
+    except Exception as e:
+        return ("EXC", type(e).__name__, ps.exc_site(e))
+    if res is None:
+        return ("ok", None)
+    want = {"parse": bm.Feature, "parse_steps": list, "parse_scenario": bm.Scenario, "parse_rule": bm.Rule}[method]
+    if not isinstance(res, want):
+        return ("ok", {"kind": "a %s object" % type(res).__name__})
+    if method == "parse":
+        return ("ok", gr.x_feature(res))
+    if method == "parse_steps":
+        return ("ok", [gr.x_step(x) for x in res])
+    return ("ok", gr.x_scenario(res) if method == "parse_scenario" else gr.x_rule(res))
+
+
+def check_reuse(seq):
+    """seq: indexes into _reuse_ops(); a negative first index -(k+1) means: obtain the Parser object as
+    parse_feature(text_k).parser, the way the runner gets the parser it hands to Context.execute_steps()"""
+    ops = _reuse_ops()
+    v = []
+    obs = []
+    start = 0
+    seq = list(seq)
+    if seq[0] < 0:
+        seq[0] = -seq[0] - 1
+        feature = bp.parse_feature(ops[seq[0]][1])
+        used = feature.parser
+        start = 1
+        obs.append("via-feature.parser")
+    else:
+        used = bp.Parser()
+    history = []
+    for i, k in enumerate(seq):
+        method, text, label, rendered = ops[k]
+        history.append("%s[%s]" % (method, label))
+        if i < start:
+            continue
+        # a whole feature text is read in the language the Parser was built with (unless it has its own header);
+        # a fragment (steps / scenario / rule of execute_steps) is read in the language of the feature parsed before
+        carried = used.language
+        # fragments: a fresh Parser carrying the same language.  A whole feature text: which language a re-used
+        # Parser starts in (the one it was built with, or the one a '# language:' header of an earlier text left
+        # behind) is outside the statement - both readings are accepted
+        wants = [_reuse_call(bp.Parser(language=carried), method, text)]
+        if method == "parse":
+            wants.insert(0, _reuse_call(bp.Parser(), method, text))
+        got = _reuse_call(used, method, text)
+        obs.append((tuple(w[0] for w in wants), got[0], got in wants))
+        if got in wants:
+            continue
+        want = ([w for w in wants if w[0] == got[0]] or wants)[-1]
+        if rendered is not None and want[0] == "ok" and gr.diff(rendered["expected"], want[1]) and len(wants) == 1:
+            continue        # the fresh parser itself is not faithful on this text: reported by the other sub-checks
+        d = {"subcheck": "parser-reuse", "method": method}
+        if want[0] == "ok" and got[0] == "ok":
+            tree = want[1] if not isinstance(want[1], list) else {"kind": "steps", "steps": want[1]}
+            other = got[1] if not isinstance(want[1], list) else {"kind": "steps", "steps": got[1]}
+            diffs = gr.diff(tree, other) if isinstance(other, dict) and isinstance(tree, dict) else [((), want[1], got[1])]
+            path, a, b = diffs[0] if diffs else ((), "?", "?")
+            d["clause"] = "model:" + gr.path_class(path, tree)
+            what = "%s expected %r, re-used parser gives %r" % (".".join(map(str, path)), a, b)
+        elif want[0] == "ok":
+            d["clause"] = "well-formed-rejected"
+            d["site"] = got[2]
+            what = "a fresh Parser accepts the text, the re-used one gives %r" % (got,)
+        else:
+            d["clause"] = "outcome-differs"
+            what = "a fresh Parser gives %r, the re-used one %r" % (want, got if got[0] != "ok" else ("ok",))
+        v.append((d, "call #%d of the history %s on ONE Parser object: %s\n--- text of this call:\n%s\n--- text of the call before:\n%s"
+                  % (i + 1, " ; ".join(history), what, text, ops[seq[i - 1]][1] if i else "")))
+        break       # later calls run on a parser that is already known to be off
+    return {"v": v, "nt": tuple(seq) if len(seq) > 1 else None, "dg": obs, "n": len(seq) - start,
+            "out": ("reuse", ops[seq[-1]][0], ops[seq[-1]][2].split(":")[0], len(seq)),
+            "st": {"transitions": len(seq) - start, "traces": 1}}
+
+
+def reuse_cases(thorough):
+    ops = _reuse_ops()
+    n = len(ops)
+    finals = [i for i in range(n) if ops[i][3] is not None]
+    aborts = [i for i in range(n) if ops[i][3] is None]
+    for a in range(n):
+        yield (a,)
+    for a in range(n):                      # (anything ; well-formed) and (anything ; anything)
+        for b in range(n):
+            yield (a, b)
+    for a in finals:                        # parser taken from a parsed feature, then execute_steps-style calls
+        if ops[a][0] != "parse":
+            continue
+        for b in range(n):
+            if ops[b][0] == "parse":
+                continue
+            yield (-a - 1, b)
+            for c in finals:
+                if ops[c][0] != "parse":
+                    yield (-a - 1, b, c)
+    firsts = range(n) if thorough else aborts + finals[::3]
+    for a in firsts:                        # (x ; abort-or-ok ; well-formed): incl. ok ; abort ; ok
+        for b in range(n):
+            for c in finals:
+                yield (a, b, c)
+
+
 # ================================================================ driver
 RICH = (True, ("S", "O2"), ((True, ("S", "O1")), (False, ("O1",))))
 
@@ -1118,5 +1328,11 @@ def run(ctx):
     for entry in ("feature", "steps"):
         cases = [("enum", entry, (), 1)] + [("enum", entry, (a, b), maxlen) for a in E2_KINDS for b in E2_KINDS]
         ctx.sweep(e2_enum, cases, chunk=8, name="E2 all sequences <= %d lines, %s" % (maxlen, entry))
+    # (8)
+    ops = _reuse_ops()
+    ctx.bounds["parser_reuse"] = ("%d operations (%d aborting/unfinished texts, %d well-formed rendered texts); all "
+                                  "histories of <= 2 calls, all (x ; y ; well-formed) of 3 calls%s, on one Parser object"
+                                  % (len(ops), len(_AB), len(ops) - len(_AB), "" if thorough else " (x: all aborting + every 3rd well-formed)"))
+    ctx.sweep(check_reuse, reuse_cases(thorough), chunk=64, name="parser-reuse histories")
     ctx.guard(len(ctx.nt) > 3000, "at least 3000 distinct non-trivial documents/aliases/histories")
     ctx.guard(len(ctx.outcomes) > 40, "at least 40 distinct outcome classes")
